@@ -299,6 +299,41 @@ impl World for DataWorld {
         self.spec.acts.len()
     }
 
+    fn menu_here(&mut self) -> Vec<Vec<Bytes>> {
+        let mut out: Vec<Vec<Bytes>> = Vec::new();
+        for a in self.spec.acts.iter() {
+            if let Act::Cmd(c) = a {
+                out.push(self.resolve(c));
+            }
+        }
+        self.model.set_clock();
+        for p in (self.spec.probes)(&self.model) {
+            out.push(self.resolve(&p));
+        }
+        if let Some(d) = &self.spec.destructive_probes {
+            for p in d(&self.model) {
+                out.push(self.resolve(&p));
+            }
+        }
+        out.sort();
+        out.dedup();
+        out
+    }
+
+    fn raw_call(&mut self, args: &[Bytes]) -> Result<R, String> {
+        let srv = self.srv.as_ref().ok_or("no server")?;
+        let cli = self.cli.as_mut().ok_or("no client")?;
+        srv.call(cli, args).map_err(|e| format!("{}: {:?}", resp::show_cmd(args), e))
+    }
+
+    fn raw_state(&mut self) -> String {
+        self.raw_all()
+    }
+
+    fn epoch_ms(&self) -> u64 {
+        self.t0_ms
+    }
+
     fn take_server(&mut self) -> Option<(Srv, Client)> {
         if let Some(a) = self.aux.as_mut() {
             a.discard();
